@@ -303,7 +303,14 @@ impl Responder {
         let mut rejected = Vec::new();
         // Republish all the dispute transactions of the reorged trackers.
         for uuid in reorged_trackers {
-            let tracker = dbm.load_tracker(uuid).unwrap();
+            // The tracker may have been deleted since it was flagged (e.g. rejected again by the Watcher, or its owner removed).
+            let tracker = match dbm.load_tracker(uuid) {
+                Some(tracker) => tracker,
+                None => {
+                    log::info!("Reorged tracker {uuid} is not in the database anymore. Skipping it");
+                    continue;
+                }
+            };
             let dispute_txid = tracker.dispute_tx.compute_txid();
             // Try to publish the dispute transaction.
             let should_publish_penalty = match carrier.send_transaction(&tracker.dispute_tx) {
